@@ -774,6 +774,9 @@ func generate(sp spec) (out string, err error) {
 			for _, nm := range p.order {
 				c := p.consts[nm]
 				// a const block's later names inherit the type of the first
+				if nm == "_" {
+					continue
+				}
 				if c.typ == it.Type || it.Type == "" {
 					fmt.Fprintf(&b, "Definition %s : Z := %s.\n", nm, zlit(p.constVal(nm, token.NoPos)))
 					n++
